@@ -17,7 +17,7 @@ REVERSE = [  # name, commit subject prefix, checks
     ('rev-F1-bar-state-before-validation', 'fix: set_bar_height validates', ['C02', 'C08']),
     ('rev-F2-jumpoff-best-overwritten', 'fix: a jump-off clearance below', ['C03', 'C02']),
     ('rev-F3-no-rerank-after-reinstatement', 'fix: re-rank after re-instating', ['C08']),
-    ('rev-F4-cached-false-to-expect-failure', 'fix: a cached validation failure', ['C19']),
+    ('rev-F6-cache-check-then-index', 'fix: read the validation caches once', ['C16']),
     ('rev-F5a-athlon-map-published-empty', 'fix: build the combined-events', ['C16']),
     ('rev-F5b-hungarian-table-published-empty', 'fix: build the Hungarian', ['C16']),
     ('rev-F5c-wma-scratch-on-shared-grader', 'fix: keep WMA lookup indices', ['C16']),
@@ -75,6 +75,12 @@ EDITS = [
         (AS, "# Lazily evaluated dictionary to map from scoring key to parameters\n",
          "_shared_grader = AthlonsAgeGrader()\n# Lazily evaluated dictionary to map from scoring key to parameters\n"),
         ('athlib/wma/agegrader.py', "        fac = table[fx][ax1]\n        return fac", "        self._fx, self._ax1 = fx, ax1\n        fac = table[self._fx][self._ax1]\n        return fac")]),
+    # (the textual reverse of the F4 commit no longer applies after the F6 repair rewrote the same lines)
+    ('rev-F4-cached-false-to-expect-failure', ['C19'], 'violation', [
+        (UT, "    cached = _schema_valid_cache.get(t)  # one read: another thread may evict t at any moment\n    if cached is not None and (cached or not expect_failure):",
+             "    cached = _schema_valid_cache.get(t)  # one read: another thread may evict t at any moment\n    if cached is not None:"),
+        (UT, "    cached = _valid_against_schema_cache.get(t)  # one read: another thread may evict t at any moment\n    if cached is not None and (cached or not expect_failure):",
+             "    cached = _valid_against_schema_cache.get(t)  # one read: another thread may evict t at any moment\n    if cached is not None:")]),
     ('m-schema-cache-key-without-validator', ['C19'], 'violation', [(UT,
         "    t = (schema_file,validator)\n", "    t = (schema_file,)\n")]),
     ('m-valid-cache-key-without-schema', ['C19'], 'violation', [(UT,
